@@ -92,52 +92,69 @@ class C16(Prop):
         "saveObject_writes_each_nonstatic_variable_its_own_value", "saveLines_spec", "saveLines_sub", "findGlobal_flat",
         "cns_flat", "restoreObjectT_flat", "object_roundtrip", "object_roundtrip_noclear", "size_overheads_suffice",
         "saveEscaped_sub_sizeEscaped", "restore_swap_inverts_save", "restore_swap_sites_agree",
-        "save_escapes_quote_backslash_cr", "tmpName_ne_file", "save_failure_leaves_no_tmp", "save_success_leaves_no_tmp")]
+        "save_escapes_quote_backslash_cr", "tmpName_ne_file", "save_failure_leaves_no_tmp", "save_success_leaves_no_tmp",
+        "restore_nesting_bounded", "nesting_test_only_refuses", "saveObject_leaves_no_tmp", "saveObject_error_touches_nothing",
+        "saveObject_error_iff_too_deep", "tmpName_eq", "tmpName_never_a_save_file", "mapping_insert_spec",
+        "restore_mapping_all_found", "restore_mapping_all_found_alloc", "hash_sites_as_modelled", "error_messages_as_in_source",
+        "save_structure_bytes_as_in_source", "save_atomic_partial", "elem_dispatch_spec", "key_dispatch_spec",
+        "value_dispatch_spec", "svalue_dispatch_spec", "restore_dispatch_as_in_source",
+        "nesting_and_dry_run_sites_as_modelled", "roundtrip_float_keys", "keys_distinct_with_float_keys")]
     witness_theorems = ["NV.C16.Witness." + t for t in (
         "float_keys_collapse", "roundtripFloatKeys_Full_false", "cr_round_trips", "stray_byte_in_array_ok",
-        "inf_is_written_as_number", "same_name_saved", "same_name_variables")]
+        "inf_is_written_as_number", "same_name_saved", "same_name_variables", "old_mask_loses_the_key")]
     consts = [("maxSaveSvalueDepth", "MAX_SAVE_SVALUE_DEPTH"), ("nameStatic", "NAME_STATIC"),
-              ("saveExtLen", "sizeof(SAVE_EXTENSION) - 1"), ("saveExt0", "SAVE_EXTENSION[0]"), ("saveExt1", "SAVE_EXTENSION[1]")]
-    const_headers = ["lib/efuns/options.h", "lib/lpc/program.h"]
+              ("saveExtLen", "sizeof(SAVE_EXTENSION) - 1"), ("saveExt0", "SAVE_EXTENSION[0]"), ("saveExt1", "SAVE_EXTENSION[1]"),
+              ("fillPercent", "FILL_PERCENT"), ("maxTableSize", "MAX_TABLE_SIZE"), ("mapHashTableSize", "MAP_HASH_TABLE_SIZE")]
+    const_headers = ["lib/efuns/options.h", "lib/lpc/program.h", "lib/lpc/mapping.h"]
     quick_n = 1200
     thorough_n = 20000
     search_n = 1500
     design_ref = "5/C16"
-    technique = ("Lean 4 proof (structural induction over values and over all byte strings) + translator-generated "
-                 "constants + model/implementation correspondence under ASan/UBSan + crash-point enumeration")
+    technique = ("Lean 4 proof (structural induction over values, over all byte strings, over all key sequences and hash "
+                 "functions; refinement preD -> pre) + translator-generated constants, escape sets, message tables, structure "
+                 "bytes and source-statement comparisons + model/implementation correspondence under ASan/UBSan + crash-point "
+                 "and failure enumeration + lookup of every entry of every printed mapping")
     level_text = ("Lean 4 theorems about an executable model of save_svalue / svalue_save_size / restore_size / "
-                  "restore_internal_size / restore_array / restore_class / restore_mapping / restore_string / parse_numeric / "
-                  "restore_svalue / safe_restore_svalue and of the line format and call script of save_object / "
-                  "restore_object (lib/lpc/object.c, lib/lpc/mapping.c), for all values and ALL byte strings; floats and "
-                  "mblen are parameters with stated contracts; the model is tied to the source by regenerated constants and "
-                  "by running the real efuns and the model on the same generated values, truncated / mutated texts and "
-                  "crash points (traces identical); the Lean oracle judges every implementation trace")
+                  "restore_internal_size (incl. its nesting limit) / restore_array / restore_class / restore_mapping (incl. the "
+                  "hash table: bucket choice, growMap in the middle of a restore, lookup) / restore_string / parse_numeric / "
+                  "restore_svalue / safe_restore_svalue and of the line format, the dry run and the call script of save_object / "
+                  "restore_object over the real program trees (lib/lpc/object.c, lib/lpc/mapping.c), for all values, ALL byte "
+                  "strings, all crash points (also inside a call), every hash function; floats and mblen are parameters with "
+                  "stated contracts; the model is tied to the source by regenerated constants / tables / statement comparisons "
+                  "with bridging lemmas and by running the real efuns and the model on the same generated values, truncated / "
+                  "mutated / endlessly nested texts and crash points (traces identical); the Lean oracle judges every "
+                  "implementation trace, incl. that every entry of a restored mapping is found through its key")
     level_note = ("trusted: Lean kernel; extract.py; the correspondence harness (differential: only generated cases; "
-                  "stdio-level interposition, rename() atomic by assumption); FloatOps / MbLen contracts are hypotheses "
-                  "(validated on generated floats / UTF-8 by the run); hash-table order of mappings is an arbitrary "
-                  "list order in the model; size limits of mappings, C stack depth and the heap are not modelled")
-    rule = ("cases = corpus + known-finding inputs + boundary list (int64 extremes, every byte 1..127 in strings at top "
+                  "stdio-level interposition, rename() atomic by assumption, a crash inside a call is a theorem only); FloatOps / "
+                  "MbLen contracts are hypotheses (validated on generated floats / UTF-8 by the run); hash-table ORDER of a saved "
+                  "mapping is an arbitrary list order in the round-trip model (the bucket logic itself is modelled separately in "
+                  "Hash.lean, starting from a power-of-two table); the mapping size limit and the heap are not modelled")
+    rule = ("cases = corpus + known-finding inputs + boundary list (int64 extremes, every byte 1..255 in strings at top "
             "level / in arrays / as mapping key, escapes, integral / tiny / huge floats, empty containers, classes, "
-            "nesting 24..26, hand-made damaged texts, object files, crash points) + seeded random cases of five kinds: "
+            "nesting 24..26 on the save side and 25 / 26 / 27 / 300 / 150000 levels on the restore side, mappings whose table "
+            "grows during the restore, hand-made damaged texts, object files, a too deep value in every variable position, "
+            "crash points) + seeded random cases of six kinds: "
             "round trips of random nested values; valid save texts mutated 1-3 times (truncate / replace / delete / "
             "insert / duplicate / swap, biased to the format's special bytes); every prefix of a valid text; "
-            "save_object / restore_object (both noclear flags) incl. damaged files; crash-point and failure enumeration of "
-            "save_object; generated inheritance trees (static / plain / private / public inherits, depth <= 3, shadowed names) "
-            "on the REAL dumped program trees; 24-variable objects; save files of another program version; file names incl. "
-            "0/1-character names and paths of 200..300 bytes (temporary-file name). Quantifier coverage measured per run "
-            "(histogram: error kinds, restored types, class values, nesting >= 25, CR strings, non-finite floats, noclear "
-            "restores, static inherits). "
+            "save_object / restore_object (both noclear flags) incl. damaged files and too deep values; crash-point and failure "
+            "enumeration of save_object; generated inheritance trees (static / plain / private / public inherits, depth <= 3, "
+            "shadowed names) on the REAL dumped program trees; 24-variable objects; save files of another program version; file "
+            "names incl. 0/1-character names and paths of 200..300 bytes (temporary-file name); mappings of 5..64 pairs with keys "
+            "spread over many buckets in hand-chosen file order (growth thresholds of 8/16/32/64 buckets). Every case starts "
+            "without a save file. Quantifier coverage measured per run (histogram). "
             "non-trivial = trace has >= 2 lines; distinct = distinct canonical implementation trace")
-    not_covered = ["mapping size limit (\"Mapping too large\") and out-of-memory paths of the restore are not modelled",
-                   "C stack exhaustion by deeply nested text (recursion depth = nesting depth) is not modelled",
-                   "hash-table layout of mappings (the order of entries in the saved text) is abstracted to a list order; "
+    not_covered = ["mapping size limit (\"Mapping too large\"), allocate_mapping's size computation and out-of-memory paths of the "
+                   "restore are not modelled (the hash-table theorems start from a power-of-two table)",
+                   "hash-table layout of a SAVED mapping (the order of entries in the saved text) is abstracted to a list order; "
                    "traces are compared after sorting entries",
-                   "disk-full partial fprintf inside stdio buffers: failures / crashes are injected at stdio-call granularity",
+                   "a crash inside a stdio call (partial write of a block) is covered by a theorem over the file-system model only; "
+                   "on the real driver failures / crashes are injected at stdio-call granularity",
                    "non-UTF-8 multibyte locales (MbLen.cont fails for Big5/GBK/Shift-JIS; the driver always selects UTF-8)",
                    "msameval() identifies a float key with the integer key of the same bit pattern (0.0 / 0): values "
                    "with such key pairs are not generated",
-                   "float keys of mappings and valid non-ASCII UTF-8 strings are outside the round-trip THEOREM "
-                   "(correspondence only)"]
+                   "float keys of mappings are in the round-trip theorem (roundtrip_float_keys) only when their saved texts are pairwise "
+                   "different and under the stated == contract; keys that print alike collapse (open finding K5); "
+                   "two variables of one name at different inheritance levels (open finding K6)"]
 
     def gen_extra(self, ctx, bdir):
         """constants and the escape set of the save format, read from the source text of object.c"""
@@ -231,7 +248,111 @@ class C16(Prop):
         m2 = re.search(r'"MaxArraySize",\s*\d+,\s*(\d+)\)', rc)
         if not m2:
             raise X.TieBroken("const:MaxArraySize", "default of MaxArraySize not found in lib/rc/rc.cpp")
+        # hash-table sites of restore_mapping / growMap / the lookup, as modelled in NV/C16/Hash.lean
+        rm = section("static int restore_mapping (char **str", "static int restore_class", "restore_mapping")
+        maph = open(os.path.join(E.REPO, "lib/lpc/mapping.h")).read()
+        ws = lambda t: re.sub(r"\s+", " ", t)
+        rmw, mapw = ws(rm), ws(mapc)
+        msh = re.search(r"#define\s+MAP_POINTER_HASH\(x\)\s+\(\(intptr_t\)x >> (\d+)\)", maph)
+        hash_sites = {
+            "bucket = hash & mask": "oi = (int)MAP_POINTER_HASH (key.u.number); i = oi & mask; if ((elt2 = elt = a[i]))" in rmw,
+            "growth branch": ("else if (!(--m->unfilled)) { if (growMap (m)) { a = m->table; if (oi & ++mask) elt2 = a[i |= mask]; "
+                              "mask <<= 1; mask--; }") in rmw,
+            "link": "(a[i] = elt)->next = elt2;" in rmw,
+            "initial mask": "a = m->table; /* we'll leak */ mask = m->table_size;" in rmw,
+            "growMap split": "if (node_hash (elt) & oldsize) { *eltp = elt->next; if (!(elt->next = *b)) m->unfilled--; *b = elt; elt = *eltp; }" in mapw,
+            "growMap limit": "if (newsize > MAX_TABLE_SIZE) return 0;" in mapw,
+            "lookup": "i = svalue_to_int (lv) & m->table_size; for (elt = a[i]; elt; elt = elt->next) { if (msameval (elt->values, lv)) return elt; }" in mapw,
+            "hash shift": bool(msh),
+        }
+        # error messages per ROB_* code (restore_variable has no branch for ROB_CLASS_ERROR: mirrored), and the structure
+        # bytes save_svalue writes around / between the elements of the three container kinds
+        def messages(body, site):
+            ms = re.findall(r'(?:else\s+)?if\s*\(rc & (ROB_\w+)\)\s*error\s*\("((?:[^"\\]|\\.)*)"', body)
+            if not ms:
+                raise X.TieBroken("site:" + site, "the ROB_* -> error() chain of %s not recognised" % site)
+            return [(a, b[:-2] if b.endswith("\\n") else b) for a, b in ms]
+        rv_msgs = messages(src[src.find("void restore_variable (svalue_t * var"):src.find("void tell_npc")], "restore_variable")
+        fb_msgs = messages(section("void restore_object_from_buff", "static int save_object_recurse", "restore_object_from_buff"),
+                           "restore_object_from_buff")
+        sv = section("void save_svalue", "static int restore_internal_size", "save_svalue")
+
+        def lits(label, nxt):
+            i = sv.find(label)
+            j = sv.find(nxt, i + 1) if i >= 0 else -1
+            if i < 0 or j < 0:
+                raise X.TieBroken("site:save_svalue/" + label, "case not found")
+            out = []
+            for lit in re.findall(r"\*\(\*buf\)(?:\+\+)?\s*=\s*'((?:\\.|[^'\\]))'", sv[i:j]):
+                out.append({"\\0": 0, "\\\\": 92, "\\'": 39}.get(lit, ord(lit[-1])))
+            return out
+        # the characters the restore functions dispatch on: the `case 'x':` labels of their switch over the next character
+        # (restore_mapping has two: key, value) and the characters compared with `*cp` behind a `(`
+        def cases_of(start, end, site):
+            bd = section(start, end, site)
+            parts = bd.split("switch (c = *cp++)")[1:]
+            if not parts:
+                raise X.TieBroken("site:" + site, "switch over the next character not found")
+            esc = {"\\\\": 92, "\\'": 39, "\\r": 13, "\\n": 10, "\\0": 0}
+            labels = [[esc.get(x, ord(x[-1])) for x in re.findall(r"case '((?:\\.|[^'\\]))':", q)] for q in parts]
+            openers = [esc.get(x, ord(x[-1])) for x in re.findall(r"\*cp(?:\+\+)? == '((?:\\.|[^'\\]))'", bd)]
+            return labels, openers
+        d_arr = cases_of("static int restore_array (char **str, svalue_t * ret) {", "int restore_string (char *val", "restore_array")
+        d_cls = cases_of("static int restore_class (char **str, svalue_t * ret) {", "static int restore_array (char **str, svalue_t * ret) {", "restore_class")
+        d_map = cases_of("static int restore_mapping (char **str, svalue_t * sv) {", "static int restore_class (char **str, svalue_t * ret) {", "restore_mapping")
+        d_sv = cases_of("int restore_svalue (char *cp, svalue_t * v) {", "int safe_restore_svalue", "restore_svalue")
+        d_ssv = cases_of("int safe_restore_svalue (char *cp, svalue_t * v) {", "static int fgv_recurse", "safe_restore_svalue")
+        if len(d_map[0]) != 2:
+            raise X.TieBroken("site:restore_mapping", "expected two switches (key, value)")
+        dispatch = ("/-- `case 'x':` labels of the switch over the next character, in source order, and the characters compared with\n"
+                    "    `*cp` behind a `(` -/\n"
+                    "def restoreArrayCases : List Nat := %s\ndef restoreClassCases : List Nat := %s\n"
+                    "def restoreMappingKeyCases : List Nat := %s\ndef restoreMappingValueCases : List Nat := %s\n"
+                    "def restoreSvalueCases : List Nat := %s\ndef safeRestoreSvalueCases : List Nat := %s\n"
+                    "def restoreOpeners : List (List Nat) := %s"
+                    % (d_arr[0][0], d_cls[0][0], d_map[0][0], d_map[0][1], d_sv[0][0], d_ssv[0][0],
+                       [d_arr[1], d_cls[1], d_map[1], d_sv[1], d_ssv[1]]))
+        # the nesting limit of the restore and the dry run of save_object, statement by statement
+        ris = ws(section("static int restore_internal_size (char **str", "static int restore_size (char **str", "restore_internal_size"))
+        rsz = ws(section("static int restore_size (char **str", "static int restore_interior_string", "restore_size"))
+        sob = ws(section("int save_object (object_t * ob", "char* save_variable", "save_object"))
+        sor = ws(section("static int save_object_recurse", "static size_t sel", "save_object_recurse"))
+        top_args = re.findall(r"restore_internal_size \(str, [01], save_svalue_depth\+\+, (\d+)\)", rsz)
+        nest_sites = {
+            "entry test": "char c, delim, index = 0; if (nesting > MAX_SAVE_SVALUE_DEPTH) return 0; delim =" in ris,
+            "recursive calls pass nesting + 1": len(re.findall(r"restore_internal_size \(str, [01], save_svalue_depth\+\+, nesting \+ 1\)", ris)) == 3
+                                                and ris.count("restore_internal_size (str,") == 3,
+            "restore_size passes one literal": len(top_args) == 3 and len(set(top_args)) == 1 and rsz.count("restore_internal_size (str,") == 3,
+        }
+        i_dry, i_open = sob.find("(void) save_object_recurse (ob->prog, &v, 0, save_zeros, NULL);"), sob.find("f = fopen (tmp_name")
+        dry_sites = {
+            "dry run before fopen": 0 <= i_dry < i_open and "v = ob->variables; (void) save_object_recurse (ob->prog, &v, 0, save_zeros, NULL);" in sob,
+            "dry branch advances the cursor": "theSize = svalue_save_size (*svp); if (!f) {" in sor and
+                                              re.search(r"if \(!f\) \{ (/\*.*?\*/ )?\(\*svp\)\+\+; continue; \}", sor) is not None,
+            "real run after the header": sob.find("success = save_object_recurse (ob->prog, &v, 0, save_zeros, f);") > i_open > 0,
+        }
+        nest_txt = ("/-- restore nesting limit: %s; the literal restore_size passes -/\n"
+                    "def nestingSitesAsModelled : Bool := %s\ndef restoreSizeNestingArg : Nat := %s\n"
+                    "/-- save_object dry run: %s -/\ndef dryRunSitesAsModelled : Bool := %s"
+                    % (", ".join("%s=%s" % (k, "yes" if v else "NO") for k, v in nest_sites.items()),
+                       "true" if all(nest_sites.values()) else "false", top_args[0] if top_args else "0",
+                       ", ".join("%s=%s" % (k, "yes" if v else "NO") for k, v in dry_sites.items()),
+                       "true" if all(dry_sites.values()) else "false"))
+        lstr = lambda x: '"' + x.replace("\\", "\\\\").replace('"', '\\"') + '"'
         return "\n".join([
+            dispatch, nest_txt,
+            "/-- restore_variable(): `if (rc & ROB_x) error (msg)` chain, in order -/\ndef restoreVariableMessages : List (String × String) := [%s]"
+            % ", ".join("(%s, %s)" % (lstr(a), lstr(b)) for a, b in rv_msgs),
+            "/-- restore_object_from_buff(): the same chain with the variable name (`%%s`) -/\n"
+            "def restoreObjectMessages : List (String × String) := [%s]" % ", ".join("(%s, %s)" % (lstr(a), lstr(b)) for a, b in fb_msgs),
+            "/-- save_svalue(): the character literals written in the T_ARRAY / T_CLASS / T_MAPPING cases, in source order -/\n"
+            "def saveArrayLits : List Nat := %s\ndef saveClassLits : List Nat := %s\ndef saveMappingLits : List Nat := %s"
+            % (lits("case T_ARRAY", "case T_CLASS"), lits("case T_CLASS", "case T_NUMBER"), lits("case T_MAPPING", "\n}\n")),
+            "/-- the hash-table statements of restore_mapping (object.c), growMap and node_find_in_mapping (mapping.c) read\n"
+            "    as NV/C16/Hash.lean models them: %s -/\ndef hashSitesAsModelled : Bool := %s\n"
+            "/-- `MAP_POINTER_HASH(x) ((intptr_t)x >> N)` -/\ndef hashShift : Nat := %s" %
+            (", ".join("%s=%s" % (k, "yes" if v else "NO") for k, v in hash_sites.items()),
+             "true" if all(hash_sites.values()) else "false", msh.group(1) if msh else "0"),
             "/-- C: `MAX_SAVE_EXPONENT` (lib/lpc/object.c) -/\ndef maxSaveExponent : Nat := %s" % define("MAX_SAVE_EXPONENT"),
             "/-- C: `SCALE_STEP_EXPONENT` (lib/lpc/object.c) -/\ndef scaleStepExponent : Nat := %s" % define("SCALE_STEP_EXPONENT"),
             "/-- default of the configuration item MaxArraySize (lib/rc/rc.cpp) -/\ndef maxArraySize : Nat := %s" % m2.group(1),
@@ -452,6 +573,41 @@ class C16(Prop):
                 return self.gen_progs(rng, allow_dups)
         return progs, top
 
+    # allocate_mapping(n) gives restore_mapping a table of 8 buckets for n <= 8 pairs, else the next power of two above
+    # n; growMap() doubles it in the middle of the restore when 80% of the buckets are in use: sizes at which that can
+    # happen (and their neighbours)
+    GROW_SIZES = [5, 6, 7, 8, 9, 11, 12, 13, 14, 15, 16, 17, 24, 25, 26, 27, 28, 29, 30, 31, 32, 33, 50, 52, 55, 60, 63, 64]
+
+    def grow_mapping(self, rng, n=None, keys=None):
+        """a mapping whose pairs, restored in this order, fill many different buckets: integer keys are multiples of 16
+        (MAP_POINTER_HASH drops the low four bits) spread over several table sizes, or strings (hashed by address)"""
+        n = n or rng.choice(self.GROW_SIZES)
+        kind = keys or rng.weighted([("int", 5), ("str", 2), ("mixed", 2), ("negint", 1)])
+        ks, seen = [], set()
+        while len(ks) < n:
+            if kind == "str" or (kind == "mixed" and rng.chance(1, 2)):
+                k = ("s", [0x6b] + [rng.range(0x61, 0x7a) for _ in range(rng.range(1, 4))])
+            else:
+                j = rng.below(8 * n + 8)
+                if kind == "negint" and rng.chance(1, 2):
+                    j = -j - 1
+                k = ("i", 16 * j + (rng.below(16) if rng.chance(1, 4) else 0))
+            if vtxt(k) in seen:
+                continue
+            seen.add(vtxt(k))
+            ks.append(k)
+        return ("m", [(k, ("i", i + 1)) for i, k in enumerate(ks)])
+
+    def grow_lines(self, rng, n=None, keys=None):
+        v = self.grow_mapping(rng, n, keys)
+        lines = ["rx %s %s" % (vtxt(v), save_text(v).hex())]
+        if rng.chance(1, 3):
+            w = ("a", [v, ("m", [(("s", [0x61]), self.grow_mapping(rng, None, keys))])])
+            lines.append("rx %s %s" % (vtxt(w), save_text(w).hex()))
+        if rng.chance(1, 3):
+            lines.append("rt " + vtxt(v))
+        return lines
+
     def rx_ok(self, v):
         """values whose python-made save text is unambiguous: no floats (text made by python's %g)"""
         t = v[0]
@@ -579,6 +735,33 @@ class C16(Prop):
              '({"\r\n",})', '({"\xe4\xb8\xad",})', '({"\xe4\xb8",})', '({"\xff",})', '({"a\\\xe4\xb8\xad",})',
              '({\xe4\xb8\xad,})', "({\xff,})"]
         mk("restore-texts", ["rv " + t.encode("latin1").hex() for t in R])
+        # growMap() in the middle of restore_mapping: the pair that triggers the growth must land in the bucket of the
+        # DOUBLED table (hash bit `old size` set / not set), every pair must be found through its key afterwards
+        G = ["([16:1,32:2,48:3,64:4,80:5,224:6,])", "([16:1,32:2,48:3,64:4,80:5,96:6,])", "([0:1,16:2,32:3,48:4,64:5,208:6,224:7,240:8,])",
+             "([128:1,144:2,160:3,176:4,192:5,208:6,224:7,])", "([-16:1,-32:2,-48:3,-64:4,-80:5,-224:6,-240:7,])",
+             "([" + "".join("%d:%d," % (16 * (3 * i % 32), i) for i in range(15)) + "])",
+             "([" + "".join("%d:%d," % (16 * (31 - i), i) for i in range(14)) + "])",
+             "([" + "".join("%d:%d," % (16 * (5 * i % 128), i) for i in range(31)) + "])",
+             "([" + "".join("%d:%d," % (16 * (127 - 3 * i), i) for i in range(27)) + "])",
+             "([" + "".join('"k%c%c":%d,' % (97 + i % 26, 97 + i // 26, i) for i in range(31)) + "])",
+             '(["a":([16:1,32:2,48:3,64:4,80:5,224:6,]),"b":({([16:1,32:2,48:3,64:4,80:5,240:6,7:7,]),}),])']
+        mk("mapping-grows-during-restore", ["rv " + t.encode().hex() for t in G] +
+           sum([self.grow_lines(E.Rng(100 + n), n, k) for n in (6, 7, 8, 12, 13, 14, 15, 25, 28, 31, 63) for k in ("int", "str")], []) +
+           ["set i1 i2 i3 i4 i5", "wf " + ("#/c16/obj.c\nva " + G[0] + "\nvb " + G[5] + "\nvc " + G[7] + "\n").encode().hex(), "ro 0", "ro 1",
+            "so 1", "ro 0"])
+        # nesting limit of the restore (= MAX_SAVE_SVALUE_DEPTH of the save): 25 levels restore, 26 are refused as an
+        # illegal format, and text nested without end is refused instead of running the C recursion out of stack
+        def deep(n, o="({", c="})"):
+            return (o * n + "1," + (c + ",") * (n - 1) + c).encode()
+        mk("restore-nesting-limit",
+           ["rx %s %s" % (vtxt(self.nest(25)), save_text(self.nest(25)).hex()), "rv " + deep(25).hex(), "rv " + deep(26).hex(),
+            "rv " + deep(27).hex(), "rv " + deep(25, "(/", "/)").hex(), "rv " + deep(26, "(/", "/)").hex(),
+            "rx %s %s" % (vtxt(self.nest(25, "m")), save_text(self.nest(25, "m")).hex()),
+            "rv " + save_text(self.nest(26, "m")).hex(), "rv " + save_text(self.nest(26, "mix")).hex(),
+            "rv " + save_text(self.nest(26, "mk")).hex(), "rv " + save_text(self.nest(25, "mk")).hex(),
+            "rv " + deep(300).hex(), "rv " + (b"({" * 150000).hex(), "rv " + (b"([" * 150000).hex(),
+            "rv " + (b"({([1:(/" * 50000).hex(), "rv " + (b'(["a":' * 100000).hex(), "rt a[i1,a[i2]]",
+            "set i1 i2 i3 i4 i5", "wf " + (b"#/c16/obj.c\nvi 7\nva " + b"({" * 150000 + b"\nvb 5\n").hex(), "ro 1", "ro 0"])
         mk("restore-after-error", ["rv " + ("({({1,2,3,}),({" + "1," * 20000 + "}),})").encode().hex(),
                                    "rx a[i1,i2] " + b"({1,2,})".hex(), "rx c(i1,i2) " + b"(/1,2,/)".hex(),
                                    "rx m{i1:i2} " + b"([1:2,])".hex(), "rt a[i1,i2]"])
@@ -618,6 +801,30 @@ class C16(Prop):
             "set %s i1 i2 i3 %s" % (vtxt(self.nest(25, "mix")), vtxt(self.nest(12, "mv"))), "so 0", "set i0 i0 i0 i0 i0", "ro 0"])
         mk("too-deep-object", ["set i1 %s i2 i3 i4" % vtxt(self.nest(26, "m")), "so 0", "ro 0",
                                "set i1 %s i2 i3 i4" % vtxt(self.nest(25, "m")), "so 0", "ro 0"])
+        # the too deep value in EVERY variable position (first, middle, behind the statics, last), with and without an
+        # older save file; in a static variable it is no obstacle; the 24-variable object; a generated program tree
+        D26, D25 = vtxt(self.nest(26)), vtxt(self.nest(25, "mix"))
+        pos = []
+        for k in range(5):
+            a = ["i%d" % (k + 1)] * 5
+            a[k] = D26
+            pos += ["set " + " ".join(a), "so %d" % (k % 2), "ro 0"]
+            if k == 1:
+                pos += ["set i1 i2 i3 i4 i5", "so 0"]         # from here on there is an older save file
+        mk("too-deep-every-position", pos + ["set i1 i2 i3 %s i4" % D25, "so 1", "ro 0"])
+        for k in (0, 11, 22, 23):
+            vals = [("i", j) for j in range(24)]
+            vals[k] = self.nest(26, "mix")
+            mk("too-deep-many-%d" % k, ["use many", "setm " + vtxt(("a", vals)), "so 0", "ro 0", "setm " + vtxt(("a", [("i", 5)] * 24)),
+                                         "so 1", "setm " + vtxt(("a", vals)), "so 1", "ro 1"])
+        T0 = {"t0": ([], [("n", "a"), ("s", "b"), ("n", "c")]), "t1": ([("s", "t0")], [("n", "d")]),
+              "t2": ([("n", "t0"), ("n", "t1")], [("n", "e"), ("s", "f"), ("n", "g")])}
+        T0["t2"] = ([("n", "t1")], T0["t2"][1])
+        nslots = len(self.layout(T0, "t2"))
+        for k in range(nslots):
+            vals = [("i", j + 1) for j in range(nslots)]
+            vals[k] = self.nest(26)
+            mk("too-deep-tree-slot-%d" % k, self.prog_lines(T0) + ["useg t2", "setm " + vtxt(("a", vals)), "so 1", "ro 0"])
         T = {"p0": ([], [("n", "a"), ("s", "b")]), "p1": ([("n", "p0")], [("n", "c")]),
              "p2": ([("s", "p1")], [("n", "d"), ("p", "e")])}
         B.append(E.Case("b-static-inherit-of-inheriting-program", self.tree_case_lines(E.Rng(21), T, "p2", ["so", "ro", "so", "ro", "cp"]),
@@ -681,8 +888,16 @@ class C16(Prop):
 
     def gen_case(self, rng, cid, tier):
         kind = rng.weighted([("rt", 8), ("malformed", 8), ("trunc-all", 1), ("object", 3), ("crash", 1), ("renamed", 2),
-                             ("many", 1), ("names", 1), ("tree", 5)])
+                             ("many", 1), ("names", 1), ("tree", 5), ("mapgrow", 3)])
         lines = ["rm"]
+        if kind == "mapgrow":
+            for _ in range(rng.range(2, 5)):
+                lines += self.grow_lines(rng)
+            if rng.chance(1, 3):
+                v, w = self.grow_mapping(rng), self.grow_mapping(rng)
+                lines += ["set i1 i2 i3 i4 i5", "wf " + (b"#/c16/obj.c\nva " + save_text(v) + b"\nvc " + save_text(w) + b"\n").hex(),
+                          "ro %d" % rng.below(2)]
+            return E.Case(cid, lines, {"origin": "generated", "kind": kind})
         if kind == "tree":
             progs, top = self.gen_progs(rng, allow_dups=rng.chance(1, 8))
             steps = rng.weighted([(("so", "ro"), 5), (("so", "ro", "so", "ro"), 3), (("so", "ro", "cp"), 1), (("so", "cp"), 1)])
@@ -736,6 +951,8 @@ class C16(Prop):
             vals = [self.gen_value(rng, 0, 3) for _ in range(5)]
             if rng.chance(1, 3):
                 vals[rng.below(5)] = ("i", 0)
+            if rng.chance(1, 6):
+                vals[rng.below(5)] = self.nest(rng.range(25, 27), rng.choice(["a", "m", "mix", "c", "mv"]))
             lines.append("set " + " ".join(vtxt(v) for v in vals))
             lines.append("so %d" % rng.below(2))
             lines.append("set " + " ".join(vtxt(self.gen_value(rng, 0, 2)) for _ in range(5)))
@@ -797,6 +1014,10 @@ class C16(Prop):
                     tops[l[5:6]] = tops.get(l[5:6], 0) + 1
                 elif l.startswith("tree "):
                     marks["trees_dumped"] += 1
+                elif l.startswith("tbl "):
+                    marks["hash_tables_compared"] = marks.get("hash_tables_compared", 0) + 1
+                    if not l.startswith(("tbl size=8 ", "tbl size=16 unfilled=12 ")) and ("size=16" in l or "size=32" in l or "size=64" in l or "size=128" in l):
+                        marks["hash_tables_larger_than_8"] = marks.get("hash_tables_larger_than_8", 0) + 1
         h["error_kinds"] = errs
         h["case_kinds"] = kinds
         h["restored_top_level_types"] = tops
